@@ -493,6 +493,7 @@ type sliceTable struct {
 	set    []bool
 	stores int
 	err    string
+	folded bool // content obtained by constant folding of the initialiser (E-FOLD)
 }
 
 // constVal returns the constant behind an SSA value, looking through conversions of constants.
@@ -514,6 +515,25 @@ func constVal(v ssa.Value) constant.Value {
 // one `g = make([]T, N)` with constant N, then constant-index constant-value stores, plus the
 // "range over g storing one constant into every element" fill idiom.
 func (c *Ctx) evalSliceInit(rel string, g *ssa.Global) *sliceTable {
+	t := c.evalSliceInitShape(rel, g)
+	if t.err == "" {
+		return t
+	}
+	// an initialiser of another shape (loops over constant arrays, computed indices, helper stages): its content by
+	// constant folding of the whole package initialiser (E-FOLD)
+	vals, why := c.foldedSlice(rel, g)
+	if why != "" {
+		t.err += "; constant folding of the initialiser: " + why
+		return t
+	}
+	ft := &sliceTable{size: int64(len(vals)), vals: make([]constant.Value, len(vals)), set: make([]bool, len(vals)), stores: len(vals), folded: true}
+	for i, v := range vals {
+		ft.vals[i], ft.set[i] = constant.MakeInt64(v), true
+	}
+	return ft
+}
+
+func (c *Ctx) evalSliceInitShape(rel string, g *ssa.Global) *sliceTable {
 	t := &sliceTable{}
 	inits := c.initFuncsOf(rel)
 	type st struct {
